@@ -158,6 +158,17 @@ def run_bounds(pid, tier):
         classes["unicode-" + o["outcome"]] = classes.get("unicode-" + o["outcome"], 0) + 1
         if bad(o):
             res.violation(f"{o['outcome']} instead of a result on multi-byte text ({c['tag']}): {str(o.get('msg'))[:160]}", payload(c, o))
+    # ---- 6. the language specification (Parse.tla): every single-token mutation of its base modules; a rejection must name
+    #          the offending token (line and column), and no token sequence may make the parser panic
+    from . import parse
+    pst, pcnt, problems = parse.conformance(tier, "c12")
+    for kind, case, pr in problems:
+        if kind in ("position", "panic"):
+            res.violation(parse.KINDS[kind] + ": " + json.dumps(pr["detail"])[:300], parse.payload(case, pr))
+    cov["states"] += pst["distinct"]; cov["transitions"] += pst["generated"]; cov["traces_validated_against_impl"] += pcnt["prints"]
+    cov["tlc"].append({k: pst[k] for k in ("module", "cfg", "depth", "wall_s")}); cov["checker_cmd"] += pst["cmd"] + " ; "
+    cov["parse_positions"] = pcnt
+    n_eval += pcnt["prints"]
     cov.update({"evaluations": n_eval, "distinct_nontrivial": n_eval, "outcomes": classes,
                 "rule": "boundary integers (symbolic: -1, 0, 1, 2^31, 2^32, 2^60..2^62, i64/u64 max +-1) in each of 17 numeric positions at "
                         "both widths, identifier shapes, repeated add_module, every vftable block and `_`-field layout of the other "
